@@ -5,8 +5,8 @@
    [choice] (o1: tie-break among equal (price, nonce) heap entries by sender; o2: tie-break among
    equally long pending lists in truncatePending; o3: heartbeat order of truncateQueue).  The
    harness reports the implementation's observable line with the op; the driver looks for a choice
-   under which the model's line equals it (identity first, then each dimension alone, then the
-   product) and prints the model's line for that choice, or the model's line for the identity
+   under which the model's line equals it (identity first, then each dimension alone, then each
+   pair of dimensions; once an outcome of a case is unexplained the rest of that case is not searched) and prints the model's line for that choice, or the model's line for the identity
    choice when no choice explains the outcome (=> mismatch reported by ./check).  The reported line
    is used for nothing else.  The price heap content/stale counter (internal bookkeeping, input
    "H ...") is re-synchronised from the implementation before every op. *)
@@ -91,22 +91,24 @@ let () =
                   c_nolocals = false; c_journal = false; c_locals = [] } in
   let pool = ref None in
   let searched = ref 0 in
+  let case_bad = ref false in   (* after the first unexplained outcome of a case: no more searching in it *)
   (* run [f choice] for the identity choice, then search for one that reproduces [want] *)
   let solve (f : choice -> pool * err list) (want : string) : pool * string =
     let try_c c = let (p, es) = f c in (p, render p es) in
     let idc = { o1 = ident; o2 = ident; o3 = ident } in
     let (p0, l0) = try_c idc in
-    if l0 = want then (p0, l0) else begin
+    if l0 = want || !case_bad then (p0, l0) else begin
       incr searched;
       let found = ref None in
       let attempt c = if !found = None then (let (p, l) = try_c c in if l = want then found := Some (p, l)) in
       List.iter (fun x -> attempt { idc with o3 = x }) all_perms;
       List.iter (fun x -> attempt { idc with o2 = x }) all_perms;
       List.iter (fun x -> attempt { idc with o1 = x }) all_perms;
-      if !found = None then
-        List.iter (fun a -> List.iter (fun b -> List.iter (fun c ->
-            attempt { o1 = a; o2 = b; o3 = c }) all_perms) all_perms) all_perms;
-      match !found with Some r -> r | None -> (p0, l0)
+      (* two dimensions at once *)
+      if !found = None then List.iter (fun b -> List.iter (fun c -> attempt { idc with o2 = b; o3 = c }) all_perms) all_perms;
+      if !found = None then List.iter (fun a -> List.iter (fun c -> attempt { idc with o1 = a; o3 = c }) all_perms) all_perms;
+      if !found = None then List.iter (fun a -> List.iter (fun b -> attempt { idc with o1 = a; o2 = b }) all_perms) all_perms;
+      match !found with Some r -> r | None -> (case_bad := true; (p0, l0))
     end in
   List.iter (fun line ->
       match split_bar line with
@@ -115,7 +117,7 @@ let () =
         let toks = tokens head in
         (match toks, rest with
          | "CASE" :: id :: pl :: bump :: asl :: gsl :: aq :: gq :: nol :: jr :: loc :: _, _ ->
-           Hashtbl.reset txs; ntx := 0; pool := None;
+           Hashtbl.reset txs; ntx := 0; pool := None; case_bad := false;
            let locals = if loc = "-" then [] else List.map (fun s -> n_of_string s) (String.split_on_char ',' loc) in
            cfg := { c_price_limit = zs pl; c_price_bump = zs bump; c_aslots = zs asl; c_gslots = zs gsl;
                     c_aqueue = zs aq; c_gqueue = zs gq; c_nolocals = (nol = "1"); c_journal = (jr = "1"); c_locals = locals };
